@@ -48,6 +48,83 @@ CLAIMED = {
          'scripts and object edits; strict lower bounds and slack-carrying upper bounds on the start/end stamps.',
          'DESIGN.md section 5 / C10',
          'upper bounds carry the result-patch latency as slack; idle lower bound only (kopf may reset idling more often)'),
+ 'C04': ('exploration',
+         'Closed-loop part only: one or two Kopf-based operators (different prefixes / status stanzas / finalizers, drawn storage '
+         'configurations) on the same objects under essential and non-essential external writes; every update must be explained by '
+         'an essential difference against an independently written essence, the stored diff base must equal that essence, '
+         'old/new/diff of every call must fit together (also narrowed to a field), and both operators must quiesce (no ping-pong).',
+         'DESIGN.md section 5 / C04',
+         'the universally quantified pure-function part (all bodies, all field paths) is sampled by the workload, not decided'),
+ 'C06': ('exploration',
+         'Deletion histories with mandatory/optional delete handlers, daemons and timers of every reaction type, foreign finalizer '
+         'edits, label flips, 422 conflicts on the finalizer patch and restarts; server-side invariants: the finalizer is not removed '
+         'while something of ours is unfinished or running within its grace, it is removed once all is done, foreign finalizers are '
+         'never added, dropped or reordered.',
+         'DESIGN.md section 5 / C06',
+         'reference decoding of progress records; cancel-only daemons have a cancellation_timeout'),
+ 'C08': ('fault_enumeration',
+         'Harness A enumerates, per generated patch (merge fields x transformation functions), every position of a failing or '
+         'conflicting sub-request x every status override of patch_obj() against the fake API and checks each field/function is '
+         'applied exactly once or carried over; harness B explores the closed loop for writes landing on another object.',
+         'DESIGN.md section 5 / C08',
+         'the sub-request sequence is enumerated exhaustively per patch; patches and bodies are sampled'),
+ 'C11': ('exploration',
+         'Change handlers and sub-handlers (also across stops/kills/restarts), timers and daemons with drawn errors mode, retries, '
+         'timeout, backoff and exception scripts; per attempt sequence: spacing, permanence, ignored => done (also the recorded '
+         'verdict, and timers going on), attempts <= retries, nothing after the timeout, recorded failed afterwards.',
+         'DESIGN.md section 5 / C11',
+         'activities (startup/cleanup/login) are exercised in C20\'s workload'),
+ 'C12': ('exploration',
+         'Harness A drives api.request directly through finite per-attempt fault sequences x back-off configurations (empty, '
+         'scalar incl. 0, list, re-iterable) x enforce_retry_after; harness B runs the closed loop with per-object error storms, '
+         '401 re-authentication with concurrent requests and a login handler that re-issues revoked credentials.',
+         'DESIGN.md section 5 / C12',
+         'attempt times are taken at the fake server; one retry on a just-closed session is tolerated'),
+ 'C13': ('exploration',
+         '2-4 operator processes (one virtual-time loop each) sharing a peering object: starts, stops, cancellations, kills, '
+         'restarts, delayed peering events, junk records; paused-by-effect (no open stream, daemons flagged), prompt resume, '
+         'settled state (exactly the top running operator active), record renewal/removal/cleaning, no handler repeated in a process.',
+         'DESIGN.md section 5 / C13',
+         'clock skew 0 (the guarantee presupposes synchronised clocks); lifetimes >= 3 s'),
+ 'C14': ('exploration',
+         'Pre-existing objects with and without last-handled state / unfinished progress, resume handlers with failure scripts, '
+         'reconnects, 410 re-listings, edits around the resume cycle, restarts; per (process, object, handler): at most one '
+         'completed run, eligible objects get it, ineligible never.',
+         'DESIGN.md section 5 / C14',
+         'eligibility is reconstructed from the first view a process had of the object'),
+ 'C15': ('exploration',
+         'Closed-loop part only: handler sets drawn over a criteria alphabet (labels/annotations value|present|absent|callback, '
+         'field+value, old/new, when, duplicate registration) against object histories over the same alphabet; soundness per '
+         'call, completeness per cycle and per raw event against an independently written reading of docs/filters.rst, and '
+         'stealth (no write to never-matching objects).',
+         'DESIGN.md section 5 / C15',
+         'the bounded-exhaustive criteria x state product is sampled, not enumerated'),
+ 'C16': ('exploration',
+         'System-level part only: handler ids over [A-Za-z0-9_./<>-]{1,300} incl. shared-prefix families, sub-handler and field '
+         'ids, all storage configurations, two operators, stranger/user annotations, graceful restarts; the fake API validates '
+         'annotation names as Kubernetes does; round trip via retry numbering and no-re-run, complete purge, isolation.',
+         'DESIGN.md section 5 / C16',
+         'validity/injectivity for ALL ids is input-space testing of pure functions; restarts are in-process (same hash seed)'),
+ 'C17': ('exploration',
+         'Two indexed kinds and a plain one, index functions scripted per (object, call), colliding keys, re-keying, filter '
+         'toggles, deletions, interleaved initial listings; index snapshots taken by a probe handler are compared with a '
+         'dictionary reference model, and the first change handler/daemon/timer call must follow every initial listing+indexing.',
+         'DESIGN.md section 5 / C17',
+         'snapshots are compared at instants without an indexing step in flight and at quiescence'),
+ 'C19': ('exploration',
+         'Namespace patterns or cluster-wide, namespaces and CRDs coming and going, stream faults at drawn positions (EOF, reset '
+         'with and without partial data, server/inactivity timeout, silence, compaction -> 410, explicit 410 and unknown ERROR '
+         'events, bookmarks), pauses; coverage (one watch per served pair), continuity (resume from the latest version, re-list '
+         'after 410), nothing skipped at quiescence, nothing listed/watched while paused.',
+         'DESIGN.md section 5 / C19',
+         'coverage is judged at settled instants'),
+ 'C20': ('exploration',
+         'Startup/cleanup handlers with outcome scripts, daemons, in-flight handlers, optional peering; one trigger per run at a '
+         'drawn moment (stop flag, cancellation, permanent startup failure, failing login, failing observer, failing watcher); '
+         'global order of startup calls, ready flag, logins, API requests, handler/daemon calls, cleanup calls, the peering '
+         'record and the return of kopf.operator(), with a plan-derived exit bound.',
+         'DESIGN.md section 5 / C20',
+         'the exit bound is computed from the plan (grace periods + scripted durations + latencies + 10 s)'),
 }
 
 NOT_YET = {}
